@@ -33,7 +33,7 @@ pub fn operations_from_number(
             .get((number - 1) as usize)
             .ok_or(MoyoError::UnknownNumberError)?,
     };
-    let entry = hall_symbol_entry(hall_number).unwrap();
+    let entry = hall_symbol_entry(hall_number).ok_or(MoyoError::UnknownHallNumberError)?;
     let hs = HallSymbol::new(entry.hall_symbol).ok_or(MoyoError::HallSymbolParsingError)?;
 
     let mut operations = vec![];
